@@ -796,6 +796,36 @@ func (f *frame) hasType(x string, t types.Type) string {
 func (f *frame) typeImplFacts(it types.Type, fn string) {
 	e := f.e
 	iface := it.Underlying().(*types.Interface)
+	// closed world (A-CLOSED): an interface declared in the module, with methods, whose only implementation among the
+	// module's own types is one concrete type C, is implemented by C only (callers outside the module are not modelled)
+	if key := "implclosed@" + fn; !e.declared[key+"@seen"] && isModuleType(it) && iface.NumMethods() > 0 {
+		e.declared[key+"@seen"] = true
+		var impls []types.Type
+		for path, p := range e.db.w.ByPath {
+			if !strings.HasPrefix(path, modPath) || p.Types == nil {
+				continue
+			}
+			sc := p.Types.Scope()
+			for _, n := range sc.Names() {
+				tn, ok := sc.Lookup(n).(*types.TypeName)
+				if !ok || tn.IsAlias() {
+					continue
+				}
+				if _, isI := tn.Type().Underlying().(*types.Interface); isI {
+					continue
+				}
+				if types.Implements(tn.Type(), iface) {
+					impls = append(impls, tn.Type())
+				} else if pt := types.NewPointer(tn.Type()); types.Implements(pt, iface) {
+					impls = append(impls, pt)
+				}
+			}
+		}
+		if len(impls) == 1 {
+			e.assumed["A-CLOSED: "+types.TypeString(it, nil)+" is implemented only by "+types.TypeString(impls[0], nil)] = true
+			e.addDecl(key, fmt.Sprintf("(assert (forall ((t Int)) (! (=> (%s t) (= t %d)) :pattern ((%s t)))))", fn, e.typeID(impls[0]), fn))
+		}
+	}
 	for id, ct := range e.knownTypes() {
 		key := fmt.Sprintf("implfact@%s@%d", fn, id)
 		if e.declared[key] {
